@@ -111,6 +111,10 @@ func encValDepth(sb *strings.Builder, v interface{}, depth int) {
 			sb.WriteString("F")
 		}
 	case *decimal.Big:
+		if x == nil {
+			sb.WriteString("N") // reads as null (see 'Pd')
+			return
+		}
 		sb.WriteString(decCanon(x))
 	case string:
 		sb.WriteString("S" + hx([]byte(x)))
@@ -309,6 +313,9 @@ func (p *valParser) val() interface{} {
 	case 'G':
 		fl, _ := strconv.ParseFloat(string(unhx(t[1:])), 64)
 		return fl
+	case 'g': // a float32 (the spelling is that of the float64 it widens to, which is what enters the computation)
+		fl, _ := strconv.ParseFloat(string(unhx(t[1:])), 64)
+		return float32(fl)
 	case 'M':
 		f := strings.Split(t[1:], ":")
 		ns, _ := new(big.Int).SetString(f[0], 10)
@@ -419,6 +426,8 @@ func (p *valParser) val() interface{} {
 			return (*SBase)(nil)
 		case "Pf":
 			return (*float64)(nil)
+		case "Pd":
+			return (*decimal.Big)(nil) // normalised to the untyped null when it is read
 		}
 		return (*int)(nil)
 	case 'C':
@@ -552,6 +561,9 @@ func goType(t string) reflect.Type {
 	panic("bad type " + t)
 }
 
+// callerKey marks the context the harness hands to Resolve
+type callerKey struct{}
+
 type callLog struct {
 	calls []string
 }
@@ -587,6 +599,8 @@ func makeHost(h hostSpec, log *callLog) interface{} {
 			start = 1
 			if args[0].IsNil() {
 				sb.WriteString("ctx=nil ")
+			} else if c, ok := args[0].Interface().(context.Context); !ok || c.Value(callerKey{}) != "the caller's" {
+				sb.WriteString("ctx=foreign ") // not the context the caller handed to Resolve
 			}
 		}
 		first := true
